@@ -21,9 +21,16 @@ RULE = ("(a) histories: array shape (1-D length 1-6, 2-D up to 4x4), contents mi
 RULE += " Extensions (seeded rounds 10-15): arrays of 3 and 4 dimensions with tuple indices of every length, outside positions on arrays of 1-200 (thorough 1023) elements with errors ignored."
 
 
-def mk_array(ns, shape, contents, secret_mask, same_rows=()):
-    """same_rows: pairs (i, j), j < i: row i is the very row object of row j (Array([row] * n))"""
+def mk_array(ns, shape, contents, secret_mask, same_rows=(), ctor=None):
+    """same_rows: pairs (i, j), j < i: row i is the very row object of row j (Array([row] * n)).
+    ctor: the 1-D array of plain numbers is built from something other than a list - a range object, a tuple, a generator"""
     A = ns.ar.Array
+    if ctor and len(shape) == 1:
+        if ctor[0] == "range":
+            return A(range(ctor[1], ctor[1] + ctor[2] * shape[0], ctor[2]))
+        if ctor[0] == "tuple":
+            return A(tuple(contents))
+        return A(v for v in contents)
 
     def el(v, s):
         if s == "F":
@@ -60,7 +67,7 @@ def run_history(case, override_idx=None):
     if has_fxp:
         from fractions import Fraction
         model = [Fraction(v, 2) if s_ == "F" else v for v, s_ in zip(model, case["mask"])]
-    arr = mk_array(ns, shape, case["contents"], case["mask"], case.get("same_rows", ()))
+    arr = mk_array(ns, shape, case["contents"], case["mask"], case.get("same_rows", ()), case.get("ctor"))
     info = {"secret_reads": 0, "write_then_other_read": False, "last_write": None, "oob": 0}
     kept = []      # (step, row read at a secret index, its values at that moment): a row that was read is a value
     for step, op in enumerate(case["ops"]):
@@ -184,7 +191,18 @@ def draw_history(draw):
     else:
         contents = [draw(vals) for _ in range(shape[0])]
         mask = [draw(st.booleans()) for _ in range(shape[0])]
-        if draw(st.integers(0, 3)) == 0:
+        ctor = None
+        if draw(st.integers(0, 4)) == 0:
+            # a table of plain numbers built from a range / tuple / generator (Array(range(n)) is the usual identity permutation)
+            kind_ = draw(st.sampled_from(["range", "range", "tuple", "gen"]))
+            mask = [False] * shape[0]
+            if kind_ == "range":
+                a0, stp = draw(st.integers(-2, 3)), draw(st.sampled_from([1, 1, 2, -1, 10]))
+                contents = list(range(a0, a0 + stp * shape[0], stp))
+                ctor = ["range", a0, stp]
+            else:
+                ctor = [kind_]
+        elif draw(st.integers(0, 3)) == 0:
             # integer and fixed-point elements side by side (e.g. after a constant-index write of a fixed-point value)
             mask = [draw(st.sampled_from([True, False, "F"])) for _ in range(shape[0])]
     same_rows = []
@@ -213,7 +231,7 @@ def draw_history(draw):
             sec[0] = True
         ops.append([kind, idx, sec, draw(vals), draw(st.booleans())])
     return {"part": "history", "p": draw(st.sampled_from(["bn128", "bls12-381", "curve25519", 257])), "b": draw(st.sampled_from([3, 8, 16])),
-            "shape": shape, "contents": contents, "mask": mask, "ops": ops, "same_rows": same_rows}
+            "shape": shape, "contents": contents, "mask": mask, "ops": ops, "same_rows": same_rows, "ctor": ctor if not two else None}
 
 
 def history_case(case, draw=None):
@@ -532,15 +550,19 @@ def oob_case(case):
     n, pos, write = case["n"], case["pos"], case["write"]
     for ignore in (False, True):
         ns = env.reset(ir.resolve_p(case["p"]), 16, 0)
-        arr = ns.ar.Array([ns.rt.PrivVal((7 * i + 3) % 23) if i % 3 != 1 else (7 * i + 3) % 23 for i in range(n)])
+        if case.get("plain"):
+            arr = ns.ar.Array([(7 * i + 3) % 23 + 1 for i in range(n)])          # a public table: plain ints only, none of them 0
+        else:
+            arr = ns.ar.Array([ns.rt.PrivVal((7 * i + 3) % 23) if i % 3 != 1 else (7 * i + 3) % 23 for i in range(n)])
         ix = ns.rt.PrivVal(pos)
+        got = None
         if ignore:
             ns.rt.ignore_errors(True)
         try:
             if write:
                 arr[ix] = ns.rt.PrivVal(5)
             else:
-                arr[ix]
+                got = arr[ix]
             raised = False
         except IndexError:
             raised = True
@@ -549,6 +571,12 @@ def oob_case(case):
         what = "%s at secret position %d of an array of %d elements" % ("write" if write else "read", pos, n)
         if not ignore and not raised:
             return "%s was accepted" % what
+        if ignore and not raised and got is not None:
+            # whatever the dead read returns, the value it reports is the value of its wire (C04)
+            for path, leaf in ir.secret_leaves(ns, got, "result"):
+                if (leaf.value - r1cs.lc_value(leaf.lc.d, ns.rec.vals, ns.rec.P)) % ns.rec.P:
+                    return "%s, run with errors ignored: the result reports %d but its wire expression evaluates to %d" % (
+                        what, leaf.value, ir.centered(r1cs.lc_value(leaf.lc.d, ns.rec.vals, ns.rec.P), ns.rec.P))
         if ignore and not raised and not r1cs.evaluate(ns.rec.snapshot()):
             return "%s, run with errors ignored: the recorded witness satisfies all %d emitted constraints - the outside position is provable" % (what, len(ns.rec.cons))
     return None
@@ -604,7 +632,8 @@ def run(ctx):
                 cases.append({"part": "search", "p": 67 if ctx.tier == "quick" or L < 5 else 131, "len": L, "mask": mask, "write": write})
     total.merge_json(core.run_shards("harness.checks.c15", "search_shard", [dict(cases=cases[i::16]) for i in range(16)]).to_json())
     lens_o = [1, 2, 3, 7, 31, 63, 64, 65, 66, 70, 100, 127, 128, 130, 200] if ctx.tier == "quick" else list(range(1, 40)) + [63, 64, 65, 66, 67, 70, 71, 72, 99, 100, 101, 127, 128, 129, 130, 131, 200, 209, 255, 256, 257, 500, 1000, 1023]
-    oob = [{"part": "oob", "p": "bn128", "n": n_, "pos": pos, "write": w_} for n_ in lens_o for w_ in (False, True)
+    oob = [{"part": "oob", "p": "bn128", "n": n_, "pos": pos, "write": False, "plain": True} for n_ in (1, 2, 3, 5, 8) for pos in (-1, -2, -n_, -n_ - 1, n_, n_ + 1, 2 * n_)]
+    oob += [{"part": "oob", "p": "bn128", "n": n_, "pos": pos, "write": w_} for n_ in lens_o for w_ in (False, True)
            for pos in sorted(set(list(range(n_, n_ + (12 if ctx.tier == "quick" else 40))) + [-1, -n_, 2 * n_, n_ * n_, n_ + 64]))]
     total.merge_json(core.run_shards("harness.checks.c15", "oob_shard", [dict(cases=oob[i::16]) for i in range(16)]).to_json())
     big = large_cases(ctx.tier)
